@@ -2243,6 +2243,11 @@ func ConcreteNextHopProto(e *aft.Afts_NextHop) (*aftpb.Afts_NextHopKey, error) {
 	}, nhproto); err != nil {
 		return nil, fmt.Errorf("cannot marshal next-hop index %d, %v", e.GetIndex(), err)
 	}
+	// protomap.ProtoFromPaths does not (yet) populate ywrapper.BoolValue fields,
+	// so pop-top-label - the only boolean leaf of a next-hop - is set explicitly.
+	if e.PopTopLabel != nil {
+		nhproto.PopTopLabel = &wpb.BoolValue{Value: e.GetPopTopLabel()}
+	}
 	return &aftpb.Afts_NextHopKey{
 		Index:   *e.Index,
 		NextHop: nhproto,
